@@ -256,14 +256,19 @@ def segmentLoop (version : Int) : (fuel : Nat) → Buffer → Array Segment → 
 /-- how many syndromes the decoder asks for: the number of error correction codewords -/
 def RS_SYNDROMES (cap : Gen.GCap) : Int := cap.correction
 
+/-- whether the decoder unmasks a private copy (repaired source) or the caller's pixels (pinned source) -/
+def DECODE_CLONES : Bool := false
+
 /-- Go: `DecodeBitmap`; also returns the caller's bitmap as it is after the call -/
-def decodeBitmapFull (img : Image) : Out (QRCode × Image) := do
+def decodeBitmapFull (img0 : Image) : Out (QRCode × Image) := do
+  let img : Image := { img0 with minX := 0, minY := 0, maxX := img0.dx, maxY := img0.dy }
   let mut raw : Nat := 0
   for i in [0:8] do
     if (← img.binaryAt 8 ((i : Int) + 1)) then raw := raw ||| (1 <<< i)
     if (← img.binaryAt ((i : Int) + 1) 8) then raw := raw ||| (1 <<< (14 - i))
   let some (version, level, mask) ← decodeFormat raw | .err "qr code not found"
   let w : Int := 8 + 2 * version
+  if img.dx ≠ w + 1 ∨ img.dy ≠ w + 1 then Out.err (α := Unit) "microqr: image size does not match version"
   let usedO ← imgAt usedList version
   let pat ← deref (← imgAt maskList mask)
   let used ← deref usedO
@@ -275,7 +280,7 @@ def decodeBitmapFull (img : Image) : Out (QRCode × Image) := do
   let stream : Buffer := { buf := (data.take cap.data).toArray }
   if version < 1 ∨ version > 4 then Out.panic (α := Unit) "invalid version"
   let segments ← segmentLoop version (cap.data * 8 + 8) stream #[]
-  pure ({ version, level, mask, segments }, binimg)
+  pure ({ version, level, mask, segments }, if DECODE_CLONES then img0 else { img0 with pix := binimg.pix })
 
 def decodeBitmap (img : Image) : Out QRCode := do
   let (q, _) ← decodeBitmapFull img
